@@ -2,6 +2,7 @@
 property's own domain and observables, (3) search for a concrete failing input when (1) or (2) breaks."""
 import json, os, random, sys, time
 import vlib, gens
+import props_split, props_quote
 from vlib import Result, hexs, unhex, log
 
 
@@ -173,7 +174,7 @@ def c13(res, st):
                         "token.KeywordsMap is read through the translator (Gen/Keywords.v)"]
 
 
-CHECKS = {"C20": c20, "C13": c13}
+CHECKS = {"C20": c20, "C13": c13, "C15": lambda res, st: props_quote.c15(res, st, std_coq), "C12": lambda res, st: props_split.c12(res, st, std_coq, lexer_inputs)}
 
 
 def run(pid, tier, seed):
